@@ -149,6 +149,10 @@ let check_kind (prop : string) (b : block) : verdict list =
                   List.concat_map (fun v -> (if fixed v then [v] else []) @ (if fixed (-v) then [-v] else []))
                     (List.init n (fun i -> i + 1)) in
               if ir <> exp then
+                (* core:c2d-false-node was finding K7 (the syntactic core under-reported on c2d input
+                   that keeps a false node); repaired by F22 (calculate_core ignores dead branches):
+                   the class is an ordinary compared case now and the signature a DETECTOR without a
+                   finding line - an occurrence is a VIOLATION *)
                 let c2d_false = List.exists (fun (k, ls) -> k = "c2d" && List.mem "O 0 0" ls) b.files in
                 add (Viol (sig_of "core" (if a = [] then (if c2d_false then "c2d-false-node" else "syntactic-incomplete") else "with-assumptions"),
                            Printf.sprintf "core [%s] = [%s] but the literals fixed in all models are [%s]" opdesc
